@@ -99,6 +99,10 @@ pub struct StreamSc {
     /// re-entrancy: while answering this poll (1-based; 0 = never) the stream itself parses a small
     /// document on the same thread — a source that decodes or validates with the same library
     pub reenter_at: u32,
+    /// while answering this poll (1-based; 0 = never) the stream *panics* (a bug of the caller's
+    /// iterator). The parser cannot help that — but the library must still work afterwards: the run
+    /// then parses a valid and an invalid document on the same thread and both must come out right.
+    pub panic_at: u32,
 }
 
 impl StreamSc {
@@ -166,6 +170,7 @@ impl StreamSc {
         if self.entry == Entry::ParseIn { o.push(("context".into(), J::UInt(self.context as u64))); }
         if self.hint != 0 { o.push(("size_hint_mode".into(), J::UInt(self.hint as u64))); }
         if self.reenter_at != 0 { o.push(("reenter_at_poll".into(), J::UInt(self.reenter_at as u64))); }
+        if self.panic_at != 0 { o.push(("stream_panics_at_poll".into(), J::UInt(self.panic_at as u64))); }
         J::Obj(o)
     }
 
@@ -198,12 +203,13 @@ impl StreamSc {
         let context = j.get("context").and_then(J::as_u64).unwrap_or(0) as u8;
         let hint = j.get("size_hint_mode").and_then(J::as_u64).unwrap_or(0) as u8;
         let reenter_at = j.get("reenter_at_poll").and_then(J::as_u64).unwrap_or(0) as u32;
-        Ok(StreamSc { entry, target, opts, src, faults, context, hint, reenter_at })
+        let panic_at = j.get("stream_panics_at_poll").and_then(J::as_u64).unwrap_or(0) as u32;
+        Ok(StreamSc { entry, target, opts, src, faults, context, hint, reenter_at, panic_at })
     }
 
     pub fn digest(&self) -> u64 {
         let mut d = Digest::default();
-        d.u8(self.entry as u8); d.u8(self.target as u8); if self.entry == Entry::ParseIn { d.u8(self.context) } d.u8(self.hint); d.u64(self.reenter_at as u64);
+        d.u8(self.entry as u8); d.u8(self.target as u8); if self.entry == Entry::ParseIn { d.u8(self.context) } d.u8(self.hint); d.u64(self.reenter_at as u64); d.u64(self.panic_at as u64);
         if self.entry.takes_options() { d.u8(self.opts.0 as u8 | (self.opts.1 as u8) << 1); } else { d.u8(0) }
         match &self.src {
             Src::Events(evs) => for e in evs { match e { Ev::Item(c, l) => { d.u64((*c as u64) << 8 | *l as u64) } Ev::Fail(i) => d.u64(1 << 40 | *i as u64), Ev::End => d.u64(2 << 40) } },
@@ -217,6 +223,8 @@ impl StreamSc {
 
 /// Raised (as a panic payload) by the stream's own watchdog when the parser keeps polling.
 pub struct SpinDetected;
+/// Panic payload of the deliberately failing caller-side iterator.
+pub struct StreamPanicked;
 
 /// The iterator handed to the parser. Not `Clone`: the parser's only access to its input is
 /// `next()`, so "each character pulled at most once" holds by construction and is confirmed by
@@ -229,12 +237,14 @@ pub struct SimStream<'a> {
     limit: usize,
     hint: u8,
     reenter_at: usize,
+    panic_at: usize,
 }
 
 impl<'a> SimStream<'a> {
-    pub fn new(evs: &'a [Ev]) -> Self { SimStream { evs, i: 0, polls: 0, polls_after_exhaustion: 0, limit: evs.len() + 10_000, hint: 0, reenter_at: 0 } }
+    pub fn new(evs: &'a [Ev]) -> Self { SimStream { evs, i: 0, polls: 0, polls_after_exhaustion: 0, limit: evs.len() + 10_000, hint: 0, reenter_at: 0, panic_at: 0 } }
     pub fn with_hint(evs: &'a [Ev], hint: u8) -> Self { SimStream { hint, ..SimStream::new(evs) } }
     pub fn reentering_at(mut self, poll: usize) -> Self { self.reenter_at = poll; self }
+    pub fn panicking_at(mut self, poll: usize) -> Self { self.panic_at = poll; self }
     fn hint(&self) -> (usize, Option<usize>) {
         match self.hint { 1 => { let n = self.evs[self.i.min(self.evs.len())..].iter().take_while(|e| matches!(e, Ev::Item(..))).count(); (n, Some(n)) } 2 => (usize::MAX, None), _ => (0, None) }
     }
@@ -242,6 +252,7 @@ impl<'a> SimStream<'a> {
     fn pull(&mut self) -> Option<Result<(char, u32), u32>> {
         self.polls += 1;
         if self.polls > self.limit { std::panic::panic_any(SpinDetected); }
+        if self.polls == self.panic_at { std::panic::panic_any(StreamPanicked); }
         if self.polls == self.reenter_at {
             // the source uses the library itself while the outer parse is waiting for this character
             use json_syntax::Parse;
